@@ -14,6 +14,11 @@ Definition model_run_order : list string :=
     "toolarge"; "hash"; "serialize"; "dryguard"; "forcebranch"; "trunc"; "excl"; "open"; "write";
     "show"; "link"; "opener" ].
 
-(** from_create: resolve the input, globs, walk, file name, decode, default target *)
+(** from_create, path input: resolve the input, globs, walk, file name, decode, name check,
+    default target *)
 Definition model_content_order : list string :=
-  [ "resolve_input"; "glob"; "walk"; "fname"; "decode"; "default" ].
+  [ "resolve_input"; "glob"; "walk"; "fname"; "decode"; "namecheck"; "default" ].
+
+(** from_create, stdin input: --name present, name check, --output present *)
+Definition model_stdin_order : list string :=
+  [ "stdin_name"; "stdin_namecheck"; "stdin_output" ].
